@@ -31,7 +31,7 @@ from kopf._core.reactor import orchestration
 from kv.explorer import Env, Scenario, UserAction, Violation, execute
 from kv.harness.op import make_settings, make_vault, resource_of
 from kv.runner import CheckResult, run_groups
-from kv.world import KEX, KEX2, Kind, Request, Stream
+from kv.world import EPOCH, KEX, KEX2, NS_PEERING, Kind, Request, Stream
 
 INACTIVITY = 20.0
 
@@ -292,6 +292,11 @@ class OrchestrationScenario(Scenario):
     dev_when_ready = True
     horizon = 40.0
 
+    def __init__(self, **params: Any) -> None:
+        super().__init__(**params)
+        if params.get('peering'):
+            self.kinds = [KEX, KEX2, NS_PEERING]
+
     def delays(self, env: Env, req: Request) -> bool:
         return False
 
@@ -302,7 +307,20 @@ class OrchestrationScenario(Scenario):
         return False
 
     def setup(self, env: Env) -> None:
-        settings = make_settings()
+        peering = bool(self.params.get('peering'))
+        if peering:
+            # namespaced, mandatory peering: the operator is paused as long as ANY served namespace has not shown a peering object
+            # without blockers; the pause contributed by a namespace must go away with the namespace
+            import datetime
+            settings = make_settings(peering__standalone=False, peering__name='default', peering__mandatory=True, peering__priority=0,
+                                     peering__lifetime=60, networking__error_backoffs=())
+            for ns in self.params.get('peering_in', ['n0', 'n2']):
+                env.world.create(NS_PEERING, ns, 'default', {})
+            for ns in self.params.get('blocker_in', []):
+                env.world.merge(NS_PEERING, ns, 'default', {'status': {'ghost': {
+                    'priority': 1000, 'lifetime': 1000, 'lastseen': (EPOCH + datetime.timedelta(seconds=0)).isoformat()}}}, actor='foreign')
+        else:
+            settings = make_settings()
         insights = references.Insights()
         env.memo['insights'] = insights
 
@@ -312,6 +330,8 @@ class OrchestrationScenario(Scenario):
         async def main() -> None:
             auth.vault_var.set(make_vault(env.world))
             paused = aiotoggles.ToggleSet(any)
+            if peering:
+                await insights.backbone.fill(resources=[resource_of(NS_PEERING)])
             try:
                 await orchestration.orchestrator(processor=processor, settings=settings, identity='me',  # type: ignore[arg-type]
                                                  insights=insights, operator_paused=paused)
@@ -358,6 +378,13 @@ class OrchestrationScenario(Scenario):
             return out
         ins = env.memo['insights']
         want = {(r.plural, ns) for r in ins.watched_resources for ns in ins.namespaces}
+        if self.params.get('peering'):
+            # paused (no resource watches at all) while a served namespace lacks its peering object or shows a live blocker there
+            blocked = [ns for ns in ins.namespaces
+                       if env.world.get(NS_PEERING, ns, 'default') is None or ns in self.params.get('blocker_in', [])]
+            if blocked:
+                want = set()
+            want |= {(NS_PEERING.plural, ns) for ns in ins.namespaces}
         have: dict[tuple[str, Any], int] = {}
         for s in env.world.open_streams():
             have[(s.kind.plural, s.namespace)] = have.get((s.kind.plural, s.namespace), 0) + 1
@@ -397,6 +424,10 @@ def orchestration_scenarios(tier: str) -> list[OrchestrationScenario]:
             for spacing in (0.0, 2.0):
                 user = [(1.0, 'addns', 'n0')] + [(2.0 + i * spacing, a, w) for i, (a, w) in enumerate(combo)]
                 out.append(OrchestrationScenario(user=user, spacing=spacing))
+            if d <= 2 and any(a.endswith('ns') for a, _ in combo):
+                # the same histories with mandatory namespaced peering: n1 has no peering object, n2 shows a live blocker
+                user = [(1.0, 'addns', 'n0'), (1.0, 'addres', 'r1')] + [(3.0 + i * 3.0, a, w) for i, (a, w) in enumerate(combo) if (a, w) != ('addres', 'r1')]
+                out.append(OrchestrationScenario(user=user, spacing=3.0, peering=True, peering_in=['n0', 'n2'], blocker_in=['n2']))
     return out
 
 
